@@ -91,7 +91,7 @@ def run_case(chk, case, tier):
                 report("model-order", f"models fed back in order {perm}", bad)
                 return
         # (c) fresh interpreters: hash seeds x worker counts
-        combos = [(0, 1), (1, 4)] if tier == "quick" else [(0, 1), (1, 4), (2, 16), (3, 2), (12345, 8)]
+        combos = [(0, 1), (2, 4), (3, 2)] if tier == "quick" else [(0, 1), (1, 4), (2, 16), (3, 2), (12345, 8), (7, 1)]
         with ThreadPoolExecutor(max_workers=len(combos)) as ex:
             futs = [ex.submit(child, dict(case, workers=w, global_noise=h), h) for h, w in combos]
             res = []
